@@ -24,7 +24,7 @@ def check(pid, category, text, note, technique, design, thorough=True, engine="s
 check(
     "C20",
     "other",
-    "bounded symbolic verification of the constant-folding kernels: for every operator x operand-kind combination the real folding functions are executed on symbolic operands (z3 Int / Float64 / symbolic-length strings); obligations: no exception can escape for any operand value (totality) and every big-int/sequence operation grows its result by at most 2**24 bits/items over its largest operand (so cost is linear in the text). (K2) the two deferral loops of semantic analysis (semanal_main.process_top_level_function / process_top_levels) run from source against an oracle for semantic_analyze_target whose answers are solver-chosen at every call under the analyzer's no-deferral-in-final-iteration contract: they return within MAX_ITERATIONS rounds, never trip their assertions, report a hang only when the cap stopped them. (K3) the daemon's import-following update (Server.fine_grained_increment_follow_imports / find_reachable_changed_modules / direct_imports) on solver-chosen import graphs with cycles, root sets and changed files terminates and processes every reachable changed module exactly once. Narrow: folding kernels, deferral loops and the daemon work-list only - the scalar part of 'never an internal failure or hang'.",
+    "bounded symbolic verification of the constant-folding kernels: for every operator x operand-kind combination the real folding functions are executed on symbolic operands (z3 Int / Float64 / symbolic-length strings); obligations: no exception can escape for any operand value (totality) and every big-int/sequence operation grows its result by at most 2**24 bits/items over its largest operand (so cost is linear in the text). (K2) the two deferral loops of semantic analysis (semanal_main.process_top_level_function / process_top_levels) run from source against an oracle for semantic_analyze_target whose answers are solver-chosen at every call under the analyzer's no-deferral-in-final-iteration contract: they return within MAX_ITERATIONS rounds, never trip their assertions, report a hang only when the cap stopped them. (K3) the daemon's import-following update (Server.fine_grained_increment_follow_imports / find_reachable_changed_modules / direct_imports) on solver-chosen import graphs with cycles, root sets and changed files terminates and processes every reachable changed module exactly once. (K4) ExpressionChecker.dangerous_comparison returns (no RecursionError) for every ordered pair of recursive alias types over set/frozenset/list/tuple/dict/Mapping/unions, built by the real front end. Narrow: folding kernels, deferral loops, the daemon work-list and the strict-equality recursion only - the scalar part of 'never an internal failure or hang'.",
     "trusted: z3, the pysem raise-condition table in vf/symx.py (validated against CPython on boundary values at start-up), bit_length/pow as axiomatised uninterpreted functions; outside the claim: crashes from program structure, daemon mode",
     "symbolic execution of real Python source with z3 (decision-replay), exhaustive path exploration per operator/kind",
     "DESIGN.md 4/C20",
